@@ -94,6 +94,43 @@ def body(S, t, part):
     S.note("pulses", sum(d.pulses for d in w.devs.values()))
 
 
+def setup_entrance(part):
+    return stubs.boot("balls_g")
+
+
+def body_entrance(S, t, part):
+    """a device that counts at its entrance (switch and entrance event, capacity 2): whatever entries are reported, its count never
+    exceeds its capacity and never goes negative"""
+    m = t.machine
+    S.now_symbolic(t.loop)
+    lock = m.ball_devices["bd_trough"]
+    cap = lock.config['ball_capacity']
+    t.advance_time_and_run(1)
+    n = part["entries"]
+    k = S.int("entries", 1, n)
+    for i in range(n):
+        if i >= k:
+            break
+        if S.bool("entry%d_by_event" % i):
+            m.events.post("trough_ball_entered")
+        else:
+            m.switch_controller.process_switch("s_entrance", 1, logical=True)
+            m.switch_controller.process_switch("s_entrance", 0, logical=True)
+        t.advance_time_and_run(S.real("gap%d" % i, 0, 3))
+        if lock.balls < 0 or lock.balls > cap:
+            raise Violation("count-never-negative-or-above-capacity", "EntranceSwitchCounter.received_entrance_event", "after entry %d: bd_trough.balls=%s with capacity %s" % (i + 1, lock.balls, cap))
+    counter = lock.ball_count_handler.counter
+    for step in range(40):          # watch the count while it settles (the device ejects unclaimed balls again afterwards)
+        t.advance_time_and_run(0.25)
+        seen = max(lock.balls, getattr(counter, "_last_count", 0) or 0)
+        if lock.balls < 0 or seen > cap:
+            raise Violation("count-never-negative-or-above-capacity", "EntranceSwitchCounter.received_entrance_event", "%.2f s after %s entries: bd_trough counts %s ball(s) with capacity %s" % (
+                0.25 * (step + 1), k, seen, cap))
+    # (unclaimed balls are ejected again by the device: how many stay is not part of this scenario, only the bounds are)
+    S.note("nontrivial", k >= 1)
+    S.note("entries", k)
+
+
 def scenarios(tier):
     parts = []
     for mach in ("balls_a", "balls_b"):
@@ -102,4 +139,5 @@ def scenarios(tier):
                 parts.append(dict(machine=mach, scenario=sc, tr_range=r))
         parts.append(dict(machine=mach, scenario="steal", tr_range=[0.5, 0.5]))
     pb = 60 if tier == "quick" else 800
-    return [Scenario("world", setup, body, parts, teardown=teardown, part_budget=pb, per_path_timeout=30 if tier == "quick" else 120)]
+    return [Scenario("world", setup, body, parts, teardown=teardown, part_budget=pb, per_path_timeout=30 if tier == "quick" else 120),
+            Scenario("entrance", setup_entrance, body_entrance, [dict(entries=3 if tier == "quick" else 5)], teardown=teardown, part_budget=pb, per_path_timeout=60)]
